@@ -16,23 +16,24 @@ package token
 //@ define tablesOK() = endsOK() && c1all() && c2all() && keywordsOK() && internOK()
 
 //@ func InternToken
-//@   requires t != nil && internOK()
+//@   requires t != nil
+//@   requires @C16,C08 internOK()
 //@   modifies map interning
-//@   ensures  internOK()
-//@   ensures  result != nil && result.tokenType == old(t.tokenType) && result.literal == old(t.literal)
+//@   ensures  @C16,C08 internOK()
+//@   ensures  @C16,C08 result != nil && result.tokenType == old(t.tokenType) && result.literal == old(t.literal)
 //@   property C16
 
 //@ func Intern
-//@   requires internOK()
+//@   requires @C16,C08 internOK()
 //@   modifies map interning
-//@   ensures  internOK()
-//@   ensures  result != nil && result.tokenType == t && result.literal == literal
+//@   ensures  @C16,C08 internOK()
+//@   ensures  @C16,C08 result != nil && result.tokenType == t && result.literal == literal
 //@   property C16
 
 //@ func LookupIdent
-//@   requires internOK() && keywordsOK()
+//@   requires @C16,C08 internOK() && keywordsOK()
 //@   modifies map interning
-//@   ensures  internOK()
-//@   ensures  result != nil && result.literal == ident
-//@   ensures  kind:: result.tokenType == IDENT || isIdentity(result.tokenType)
+//@   ensures  @C16,C08 internOK()
+//@   ensures  @C16,C08 result != nil && result.literal == ident
+//@   ensures  @C16,C08 kind:: result.tokenType == IDENT || isIdentity(result.tokenType)
 //@   property C16
